@@ -341,3 +341,39 @@ func (f *Func) SameValue(a, b ast.Expr) bool {
 	}
 	return false
 }
+
+// soleReachingDef reports whether, at site use, the only definition of obj
+// that can reach it is the one made by statement def (reaching definitions on
+// the CFG of f; definitions inside nested literals make the answer false).
+func (f *Func) soleReachingDef(obj types.Object, def ast.Node, use Site) bool {
+	g := f.Graph()
+	var defSites []Site
+	for _, d := range f.Defs(obj) {
+		ss := f.Find(func(n ast.Node) bool { return n == d.Node })
+		if len(ss) == 0 {
+			if d.Kind == DefZero {
+				continue
+			}
+			return false // defined somewhere we cannot place (a nested literal)
+		}
+		defSites = append(defSites, ss[0])
+	}
+	isDef := func(p Point, _ ast.Node) bool {
+		for _, s := range defSites {
+			if s.P == p {
+				return true
+			}
+		}
+		return false
+	}
+	ok := false
+	for _, s := range defSites {
+		if pt, _ := g.Reach(s.After(), Cut{Stop: isDef}, atSite(use)); pt != nil {
+			if s.Node != def && s.X != def {
+				return false
+			}
+			ok = true
+		}
+	}
+	return ok
+}
